@@ -97,6 +97,10 @@ def updates_for(rng, current, step, nsteps, directed=False):
         # footer is far longer than the text has characters)
         upd["big"] = ("\u4e00" if step == 0 else "\u4e8c") * (170000 + step)
         return upd, "big-text"
+    if directed == "empty-add" and step < 2:
+        # a NEW key whose value is empty (text, then bytes): it must be stored, not skipped
+        upd[("flag%d" % step)] = "" if step == 0 else b""
+        return upd, "add"
     if directed is True and step == 0 and len(keys) >= 3:
         # one call that removes a key, then replaces and removes keys stored after it (footer order)
         upd[keys[0]] = None
@@ -197,7 +201,7 @@ def run(ctx, report):
         other0 = fmd0
         steps = 5 if ctx.quick else 10
         for step in range(steps):
-            upd, mode = updates_for(rng, model, step, steps, directed=(True if s < 2 else "big" if s == 2 else False))
+            upd, mode = updates_for(rng, model, step, steps, directed=(True if s < 2 else "big" if s == 2 else "empty-add" if s == 3 else False))
             before = open(target, "rb").read()
             loc_b, flen_b, cons_b, fmd_b, _ = read_footer(target, is_meta)
             kv_before = kv_list(fmd_b)
